@@ -51,16 +51,21 @@ def matching_time_indices(stamps_1: np.ndarray, stamps_2: np.ndarray,
     :param offset_2: optional time offset to be applied to stamps_2
     :return: 2 lists of the matching timestamp indices (stamps_1, stamps_2)
     """
-    matching_indices_1 = []
-    matching_indices_2 = []
     stamps_2 = copy.deepcopy(stamps_2)
     stamps_2 += offset_2
+    # Use each stamp of stamps_2 at most once: for its closest match.
+    best_matches: typing.Dict[int, typing.Tuple[float, int]] = {}
     for index_1, stamp_1 in enumerate(stamps_1):
         diffs = np.abs(stamps_2 - stamp_1)
         index_2 = int(np.argmin(diffs))
-        if diffs[index_2] <= max_diff:
-            matching_indices_1.append(index_1)
-            matching_indices_2.append(index_2)
+        if diffs[index_2] <= max_diff and (
+                index_2 not in best_matches
+                or diffs[index_2] < best_matches[index_2][0]):
+            best_matches[index_2] = (diffs[index_2], index_1)
+    matches = sorted(
+        (index_1, index_2) for index_2, (_, index_1) in best_matches.items())
+    matching_indices_1 = [index_1 for index_1, _ in matches]
+    matching_indices_2 = [index_2 for _, index_2 in matches]
     return matching_indices_1, matching_indices_2
 
 
